@@ -195,15 +195,17 @@ Variable discard : value -> bool.
 Lemma pstep_shift_b f s top v ty id :
   peek (stack s) 0 = Some top ->
   find (t_actions tb) (i_state top) (la s) = FFound v ->
-  v <> accept_code -> (0 <= v)%Z -> lasym s = VTok ty id ->
+  v <> accept_code -> (0 <= v)%Z -> lasym s = VTok ty id -> la s <> ERROR ->
   pstep tb true false discard f s =
-  match read_token tb (set_stack s ({| i_state := v; i_sym := lasym s;
-            i_bounds := {| b_begin := lasym s; b_end := lasym s; b_empty := false |} |} :: stack s)) with
+  match read_token tb (set_shifts (set_stack s ({| i_state := v; i_sym := lasym s;
+            i_bounds := {| b_begin := lasym s; b_end := lasym s; b_empty := false |} |} :: stack s))
+          (shifts s + 1) (rec_shifts s)) with
   | None => Crash
   | Some s2 => Continue s2
   end.
 Proof.
-  intros H1 H2 Hna Hv Hl. unfold pstep. rewrite H1, H2.
+  intros H1 H2 Hna Hv Hl Hne. unfold pstep. rewrite H1, H2.
+  assert (En : (la s =? ERROR)%Z = false) by (apply Z.eqb_neq; exact Hne). rewrite En.
   destruct (v =? accept_code)%Z eqn:E; [apply Z.eqb_eq in E; contradiction|].
   rewrite Z.geb_leb. destruct (0 <=? v)%Z eqn:E2; [|apply Z.leb_gt in E2; lia].
   rewrite Hl. reflexivity.
@@ -318,8 +320,9 @@ Proof.
       destruct (0 <=? v)%Z eqn:E2.
       * (* shift *)
         apply Z.leb_le in E2. inversion Hjust as [s' Hne Hs' Hpast| |]; subst.
-        rewrite (pstep_shift_b tb discard f s top v _ _ Hpk Hf E E2 Hsym).
-        set (s1 := set_stack s _) in *.
+        rewrite (pstep_shift_b tb discard f s top v _ _ Hpk Hf E E2 Hsym
+                   (la_rel_noerr g tb c nterm Hval w _ _ Hla)).
+        set (s1 := set_shifts _ _ _) in *.
         destruct Hla as (i & l & Hinp & Hla').
         destruct l as [|t l].
         -- subst inp. simpl in Hne. unfold eof in Hne. congruence.
